@@ -5,6 +5,7 @@ pub mod c20;
 pub mod c21;
 pub mod c22;
 pub mod c23;
+pub mod c25;
 pub mod c26;
 pub mod c27;
 pub mod c40;
@@ -15,6 +16,7 @@ pub fn run(id: &str, run: &mut Run) {
         "C21" => c21::run(run),
         "C22" => c22::run(run),
         "C23" => c23::run(run),
+        "C25" => c25::run(run),
         "C26" => c26::run(run),
         "C27" => c27::run(run),
         "C40" => c40::run(run),
@@ -28,6 +30,7 @@ pub fn replay(id: &str, case: &Value, run: &mut Run) {
         "C21" => c21::replay(case, run),
         "C22" => c22::replay(case, run),
         "C23" => c23::replay(case, run),
+        "C25" => c25::replay(case, run),
         "C26" => c26::replay(case, run),
         "C27" => c27::replay(case, run),
         "C40" => c40::replay(case, run),
